@@ -44,15 +44,22 @@ type RunSpec struct {
 
 // Harness features added after the first regression tapes were recorded.
 const (
-	FeatNetWriteYield  = 1  // optional schedule point at the beginning of a transport write
-	FeatCutAtRegister  = 2  // C05 / C11 hub: reset placed at Hub.registerConnection
-	FeatEarlyResolve   = 4  // C17: services resolved while Start is still running
-	FeatCrash          = 8  // C05 / C11 hub: process crash and restart disturbances
-	FeatLateRun        = 16 // SHIP2 / hub rig: Run() of a connection delayed after its creation (reader already active)
-	FeatWithdrawInDial = 32 // C01 hub: the stored pairing is withdrawn while the hub's own dial is in flight
-	FeatAppInCallback  = 64 // C18: the application works (sleeps, approves the pairing) inside ServicePairingDetailUpdate
-	FeatAll            = 127
+	FeatNetWriteYield  = 1   // optional schedule point at the beginning of a transport write
+	FeatCutAtRegister  = 2   // C05 / C11 hub: reset placed at Hub.registerConnection
+	FeatEarlyResolve   = 4   // C17: services resolved while Start is still running
+	FeatCrash          = 8   // C05 / C11 hub: process crash and restart disturbances
+	FeatLateRun        = 16  // SHIP2 / hub rig: Run() of a connection delayed after its creation (reader already active)
+	FeatWithdrawInDial = 32  // C01 hub: the stored pairing is withdrawn while the hub's own dial is in flight
+	FeatAppInCallback  = 64  // C18: the application works (sleeps, approves the pairing) inside ServicePairingDetailUpdate
+	FeatDualStack      = 128 // hub rig: services announce an IPv6 and an IPv4 address, the .local host name may not resolve
+	FeatAll            = 255
 )
+
+// SetFeatForRig forces the dual-stack options of the next hub rig (workloads
+// that are about exactly that).
+func (x *Ctx) SetFeatForRig(dual, hostUnresolvable bool) {
+	x.forceDual, x.forceHostUnres = dual, hostUnresolvable
+}
 
 // Feat reports whether the run uses harness feature bit.
 func (x *Ctx) Feat(bit int) bool { return x.Spec.Feat&bit != 0 }
@@ -107,10 +114,11 @@ type Event struct {
 
 // Ctx is the per-run context handed to a scenario.
 type Ctx struct {
-	S    *simrt.Sched
-	Net  *simnet.Net
-	Spec RunSpec
-	T    *testing.T
+	forceDual, forceHostUnres bool
+	S                         *simrt.Sched
+	Net                       *simnet.Net
+	Spec                      RunSpec
+	T                         *testing.T
 
 	mu         sync.Mutex
 	events     []Event
